@@ -294,9 +294,10 @@ def rule_C(ck, units):
 def rule_C2(ck, units, control):
     """own_data = true hands the three arrays to delete[] (free_data, destructor).  The flag may be raised only for arrays the object has
     allocated itself: on every path to the assignment, ptr, col and val of that object were set from `new[]` (directly or through set_size /
-    set_nonzeros) in the same function.  Today nothing in the library raises the flag outside constructors' initialiser lists (which
+    set_nonzeros) or to null in the same function (a constructor that clears the pointers in its body, raises the flag and allocates
+    afterwards owns nothing it did not allocate).  Today nothing in the library raises the flag outside constructors' initialiser lists (which
     start from null pointers); the rule is kept alive by a positive control."""
-    ck.rule('C.own-only-allocated', 'own_data = true is assigned only after ptr, col and val of the same object were allocated (new[] / set_size / set_nonzeros) on every path to the '
+    ck.rule('C.own-only-allocated', 'own_data = true is assigned only after ptr, col and val of the same object were allocated (new[] / set_size / set_nonzeros) or nulled on every path to the '
                                     'assignment in that function: borrowed (zero-copy) arrays never become the library\'s to free', 0)
     found_control = False
     seen = set()
@@ -319,7 +320,9 @@ def rule_C2(ck, units, control):
                 for x in walk(n):
                     if x['k'] == 'bin' and x['op'] == '=' and unwrap(x['x'])['k'] == 'mem' and unwrap(x['x'])['n'] in ('ptr', 'col', 'val'):
                         r, y = root(unwrap(x['x'])), unwrap(x['y'])
-                        if y is not None and y['k'] == 'new':
+                        while y is not None and y['k'] == 'bin' and y['op'] == '=':      # ptr = col = val = 0
+                            y = unwrap(y['y'])
+                        if y is not None and (y['k'] == 'new' or (y['k'] == 'lit' and str(y.get('v')) in ('0', 'nullptr', 'NULL'))):
                             facts = facts | {(r, unwrap(x['x'])['n'])}
                         else:
                             facts = frozenset(k for k in facts if k != (r, unwrap(x['x'])['n']))
